@@ -642,6 +642,24 @@ Proof.
   exact (sharded_length_under_faults size lg Hperm H H_wf H_len (mrun ops) rt sz Hem Hn Hb).
 Qed.
 
+(* the reference's serialization does not remember the history: two histories that end in the same abstract directory (as sets of
+   entries) leave byte-identical shards *)
+Theorem ref_history_independent size lg (Hperm : permitted size lg) (H : bytes -> bytes)
+  (H_wf : forall k, wf_bytes (H k) = true) (H_len : forall k, length (H k) = 8%nat) fuel1 fuel2 ops1 ops2 t1 t2 :
+  Forall (hop_ok H) ops1 -> Forall (hop_ok H) ops2 -> hrun lg fuel1 ops1 = Ok t1 -> hrun lg fuel2 ops2 = Ok t2 ->
+  Permutation (mrun ops1) (mrun ops2) ->
+  serialize_node size HashMurmur3 (pad_len size) (BShard t1) = serialize_node size HashMurmur3 (pad_len size) (BShard t2).
+Proof.
+  intros Ho1 Ho2 Hr1 Hr2 Hp.
+  destruct (history_spec size lg Hperm H H_wf H_len fuel1 ops1 t1 Ho1 Hr1) as (Hw1 & Hk1 & Hm1 & Hn1 & Hp1).
+  destruct (history_spec size lg Hperm H H_wf H_len fuel2 ops2 t2 Ho2 Hr2) as (Hw2 & Hk2 & Hm2 & Hn2 & Hp2).
+  apply (ser_unique size lg Hperm H (BShard t1) (BShard t2) t1 t2 0 eq_refl eq_refl Hw1 Hw2 Hk1 Hk2 Hm1 Hm2).
+  - change (entries_of (BShard t1)) with (entries_in t1). eapply Permutation_NoDup; [apply Permutation_sym; exact Hp1|].
+    apply (NoDup_map_inv e_name). exact Hn1.
+  - change (entries_of (BShard t1)) with (entries_in t1). change (entries_of (BShard t2)) with (entries_in t2).
+    rewrite Hp1, Hp, <- Hp2. reflexivity.
+Qed.
+
 (* non-vacuity: a history with a fork, a replacement, a removal that collapses a sub-shard and a removal of an absent name *)
 Definition demo_ops : list hop :=
   [HSet (demo_entry [65] 1); HSet (demo_entry [65; 1] 3); HSet (demo_entry [65; 1; 2] 5); HSet (demo_entry [66] 2);
